@@ -41,8 +41,8 @@ import (
 	"github.com/openfga/openfga/verifharness/hx"
 )
 
-const slowBound = 8 * time.Second
-const allocBound = 1500 // MB allocated by one RPC
+const slowBound = 20 * time.Second // generous: the machine may be heavily loaded; F14-like regressions burn minutes
+const allocBound = 1500            // MB allocated by one RPC
 
 const baseDSL = `model
   schema 1.1
@@ -287,7 +287,7 @@ func (o *obs) do(name string, f func(ctx context.Context) error) {
 	}
 	var m0, m1 runtime.MemStats
 	runtime.ReadMemStats(&m0)
-	ctx, cancel := context.WithTimeout(context.Background(), 20*time.Second)
+	ctx, cancel := context.WithTimeout(context.Background(), 40*time.Second)
 	start := time.Now()
 	type result struct {
 		err error
@@ -310,13 +310,13 @@ func (o *obs) do(name string, f func(ctx context.Context) error) {
 			panic(r.pan)
 		}
 		err = r.err
-	case <-time.After(slowBound + 4*time.Second):
+	case <-time.After(slowBound + 10*time.Second):
 		// uncancellable work: do not wait for it (finding F14 burnt minutes), and do not pile more on top
 		cancel()
 		o.n++
 		o.codes[name+":none"] = true
-		o.slow = append(o.slow, name+"(no-return-after-12s)")
-		o.worst, o.wms = name, 12000
+		o.slow = append(o.slow, name+"(no-return-after-30s)")
+		o.worst, o.wms = name, 30000
 		// let the runaway request finish before the next one starts; give up on the run if it does not
 		select {
 		case <-done:
@@ -382,10 +382,10 @@ func bucket(ms int64) string {
 		return "<0.1s"
 	case ms < 1000:
 		return "<1s"
-	case ms < 8000:
-		return "<8s"
+	case ms < 20000:
+		return "<20s"
 	default:
-		return ">=8s"
+		return ">=20s"
 	}
 }
 
